@@ -125,3 +125,49 @@ func VerifC17Transient(h *verifh.H) {
 	h.Assert((ws.lastError != nil) == (len(sink.rejected1) > 0), "the outcome carries an error iff an entity was rejected")
 	h.Observe("delivered", len(sink.delivered))
 }
+
+// VerifC17Run: one run of the wrapped sink over two successive batches (as the
+// pipeline delivers them, no reset in between) with a symbolic permanently
+// failing subset: every non-failing entity of both batches is delivered
+// exactly once, every failing one reported exactly once, and the outcome of
+// the run (lastError, which decides the recorded result and the reRun
+// handler) carries the error iff anything was rejected in the run — also when
+// the rejection happened in the first batch and the second went through
+// untouched.
+func VerifC17Run(h *verifh.H) {
+	maxN := h.Param("maxN", 3)
+	n1 := h.Choice("n1", maxN) + 1
+	n2 := h.Choice("n2", maxN) + 1
+	ents := vEntities(n1 + n2)
+	failing := map[string]bool{}
+	nfail := 0
+	for i := range ents {
+		if h.Bool("fail" + strconv.Itoa(i)) {
+			failing[ents[i].ID] = true
+			nfail++
+		}
+	}
+	hub := server.VerifNewHub(h)
+	runner := vRunner(hub, 2, 2)
+	sink := &vSink{failing: failing, failBatch: -1}
+	handler := &vCountingHandler{inner: &LogFailingEntityHandler{MaxItems: 0, jobId: "j", jobTitle: "j"}}
+	ws := &wrappedSink{s: sink, failingEntityHandlers: []failingEntityHandler{handler}, jobId: "j"}
+	ws.reset()
+	h.Assert(ws.processEntities(runner, ents[:n1]) == nil, "first batch returns nil")
+	h.Assert(ws.processEntities(runner, ents[n1:]) == nil, "second batch returns nil")
+	for i := range ents {
+		d := vCount(sink.delivered, ents[i])
+		if failing[ents[i].ID] {
+			h.Assert(d == 0, "a rejected entity is not delivered")
+		} else {
+			h.Assert(d == 1, "every other entity of the run is delivered exactly once")
+		}
+	}
+	h.Assert(len(handler.reported) == nfail, "each rejected entity is reported exactly once")
+	le := "nil"
+	if ws.lastError != nil {
+		le = ws.lastError.Error()
+	}
+	h.Assert((ws.lastError != nil) == (nfail > 0), "the outcome of the run carries the error iff an entity was rejected in any of its batches :: lastError="+le+" rejected="+strconv.Itoa(nfail)+" n1="+strconv.Itoa(n1)+" n2="+strconv.Itoa(n2)+" reported="+vJoinS(handler.reported))
+	h.Observe("reported", len(handler.reported))
+}
